@@ -265,6 +265,8 @@ def collect(chk, workers, prop, san_props=None, ok_rcs=(0, 4)):
         for v in wk.records("V"):
             props = v.get("props", "").split(",")
             rep = {"cmd": relcmd, "case": v.get("case"), "env": wk.env, "oplog": str(v.get("oplog", ""))[-3000:]}
+            if getattr(wk, "case_is_args", False) and isinstance(v.get("case"), str):
+                rep["cmd"] = [relcmd[0]] + v["case"].split()
             rep.update(getattr(wk, "replay_extra", {}))
             if prop in props:
                 chk.violation(v["key"], v.get("msg", ""), rep)
@@ -276,6 +278,8 @@ def collect(chk, workers, prop, san_props=None, ok_rcs=(0, 4)):
             wit = (wk.records("A") or [{}])[-1]
             rep = {"cmd": relcmd, "case": wit.get("case"), "env": wk.env, "oplog": str(wit.get("oplog", ""))[-3000:],
                    "report": excerpt}
+            if getattr(wk, "case_is_args", False) and isinstance(wit.get("case"), str):
+                rep["cmd"] = [relcmd[0]] + wit["case"].split()
             rep.update(getattr(wk, "replay_extra", {}))
             mine = san_props(kind, top) if san_props else {prop}
             if prop in mine:
